@@ -34,10 +34,25 @@ def iter_components(it):
             return [(it, m)]
         if m in ("rev",):
             return iter_components(it["recv"])
+        if m == "flat_map" and it["args"] and strip(it["args"][0]).get("k") == "closure":
+            # outer.iter_mut().flat_map(|row| row.iter_mut()): every element of every row, i.e. the whole nested store
+            base = iter_components(it["recv"])
+            clo = strip(it["args"][0])
+            cb = strip(clo["body"])
+            prm = clo["params"][0] if clo.get("params") else {}
+            if base is not None and len(base) == 1 and base[0][1] in ("iter", "iter_mut") and cb.get("k") == "mcall" and \
+                    cb["m"] == base[0][1] and prm.get("k") == "bind" and is_param(cb["recv"], prm["name"]):
+                return base
+            return None
         if m in PARTIAL_ADAPTERS:
             return None
         return [(it, "expr")]
     return [(it, "expr")]
+
+
+def is_param(n, name):
+    n = strip(n)
+    return n.get("k") == "path" and n.get("res") == "local" and n.get("name") == name
 
 
 class Flow:
@@ -48,6 +63,9 @@ class Flow:
         self.writeonly = set()  # ids of `self.f` nodes used only to be overwritten (recognised idioms)
         self.reads = []        # (field, site, state at that point)
         self.aliases = {}      # local name -> self field (let x = &mut self.f)
+        self.alias_ok = set()  # ids of alias uses that are pure writes (receiver of store.send)
+        self.iter_lets = {}    # local name -> iterator expression it was bound to (let it = self.f.iter_mut()...)
+        self.iter_used = set()
 
     # -- reads -----------------------------------------------------------------
     def scan_reads(self, n, state, skip=()):
@@ -59,6 +77,9 @@ class Flow:
                 e = strip(x["e"])
                 if e.get("k") == "path" and e.get("res") == "local" and e["name"].split("#")[0] == "self":
                     self.reads.append((x["f"], x.get("sp"), frozenset(state), x))
+            if x.get("k") == "path" and x.get("res") == "local" and x.get("name") in self.aliases and id(x) not in self.alias_ok:
+                # any other use of `let a = &mut self.f` may read the field
+                self.reads.append((self.aliases[x["name"]], x.get("sp"), frozenset(state), x))
 
     def prune_len_reads(self, root):
         """`.len()` of a buffer and `&mut` write-only uses are not content reads"""
@@ -88,6 +109,17 @@ class Flow:
                         al = s["init"]
                         if al.get("k") == "ref" and self_field(al["e"]) and s["pat"].get("k") == "bind":
                             self.aliases[s["pat"]["name"]] = self_field(al["e"])
+                            if al.get("mut") and strip(al["e"]).get("k") == "field" and len(access_path(al["e"]) or ()) == 2:
+                                # taking `&mut self.f` reads nothing; the uses of the alias are tracked instead
+                                sf = strip_field(al["e"])
+                                if sf is not None:
+                                    self.writeonly.add(id(sf))
+                        if s["pat"].get("k") == "bind" and "sub" not in s["pat"] and not s["pat"].get("mut") and \
+                                ("std::iter::" in al.get("ty", "") or "::Iter" in al.get("ty", "")) and iter_components(al) is not None and \
+                                any(self_field(c[0].get("recv", {})) for c in iter_components(al) if c[1] in ("iter", "iter_mut")):
+                            # an iterator over self fields bound to a name: analysed where it is consumed by a `for`
+                            self.iter_lets[s["pat"]["name"]] = al
+                            continue
                         st, d = self.flow(s["init"], st)
                         if d:
                             return st, True
@@ -126,7 +158,17 @@ class Flow:
             if rp and len(rp) == 1 and rp[0].split("#")[0] == "self" and (n.get("def") or "").startswith(self.prefix):
                 summ = self.summaries.get(n["def"])
                 if summ is None:
-                    raise AnalysisError("no summary for %s" % n["def"])
+                    # any other method of the same struct (e.g. an extracted helper): summarised on demand
+                    if n["def"] in self.summaries.get("__active__", ()):
+                        raise AnalysisError("recursive method %s" % n["def"])
+                    if self.F is None or n["def"] not in self.F.bodies:
+                        raise AnalysisError("no summary for %s" % n["def"])
+                    self.summaries.setdefault("__active__", set()).add(n["def"])
+                    try:
+                        summ = summarize(self.F, self.prefix, n["def"], self.summaries)
+                    finally:
+                        self.summaries["__active__"].discard(n["def"])
+                    self.summaries[n["def"]] = summ
                 st = set(state)
                 for a in n["args"]:
                     st, _ = self.flow(a, st)
@@ -155,6 +197,9 @@ class Flow:
                                 nm = access_path(x["recv"])
                                 if nm and nm[0] in self.aliases:
                                     wrote.add(self.aliases[nm[0]])
+                                    for y in walk(x["recv"]):
+                                        if y.get("k") == "path" and y.get("name") == nm[0]:
+                                            self.alias_ok.add(id(y))
                                 elif self_field(x["recv"]):
                                     wrote.add(self_field(x["recv"]))
                     else:
@@ -174,6 +219,12 @@ class Flow:
         return set(state), False
 
     def flow_for(self, n, state):
+        it0 = strip(n["iter"])
+        while it0.get("k") == "mcall" and it0["m"] == "into_iter":
+            it0 = strip(it0["recv"])
+        if it0.get("k") == "path" and it0.get("res") == "local" and it0.get("name") in self.iter_lets and it0["name"] not in self.iter_used:
+            self.iter_used.add(it0["name"])
+            n = dict(n, iter=self.iter_lets[it0["name"]])
         comps = iter_components(n["iter"])
         body = n["body"]
         st = set(state)
@@ -275,10 +326,13 @@ def strip_field(n):
             return None
 
 
-def summarize(F, prefix, path):
+def summarize(F, prefix, path, summaries=None):
     b = F.body(path)
-    fl = Flow(F, prefix, {})
+    fl = Flow(F, prefix, summaries if summaries is not None else {})
     st, _ = fl.flow(b.value, set())
+    for nm, init in fl.iter_lets.items():
+        if nm not in fl.iter_used:
+            fl.scan_reads(init, set())
     fl.prune_len_reads(b.value)
     reads = [(f, sp) for f, sp, state, node in fl.reads if f not in state]
     return {"reads": reads, "writes": st}
@@ -304,14 +358,19 @@ def run(ck, F, tier):
     ck.trust("premise from C03-F2 / C04-K1: stores are built from the matrix adjacency and every arithmetic emits one message per neighbour")
     ck.trust("Iterator::zip/enumerate visit every element of equal-length whole slices in order")
 
-    for sched, prefix, callees in (("flooding", FL, ("initialize", "process_check_nodes", "process_variable_nodes")),
-                                   ("horizontal_layered", HL, ("initialize", "process_check_nodes"))):
+    from ..decmodel import phase_methods
+    for sched, prefix in (("flooding", FL), ("horizontal_layered", HL)):
         summaries = {}
         allw = set()
-        for c in callees:
-            summaries[prefix + c] = summarize(F, prefix, prefix + c)
+        # every method of the decoder struct other than decode/new is summarised (state-changing steps and read-only helpers alike)
+        callees = [p[len(prefix):] for p, bb in F.bodies.items() if p.startswith(prefix) and "{closure" not in p and bb.hir
+                   and bb.d.get("def_kind") == "AssocFn" and p[len(prefix):] not in ("decode", "new")]
+        for c in sorted(callees):
+            if prefix + c not in summaries:
+                summaries[prefix + c] = summarize(F, prefix, prefix + c, summaries)
             u = self_field_uses(F.body(prefix + c))
             allw |= {f for f, d in u.items() if "w" in d}
+        summaries.pop("__active__", None)
         u = self_field_uses(F.body(prefix + "decode"))
         allw |= {f for f, d in u.items() if "w" in d}
         adt = F.adt("decoder::%s::Decoder" % sched)
@@ -328,6 +387,9 @@ def run(ck, F, tier):
         db = F.body(prefix + "decode")
         fl = Flow(F, prefix, summaries)
         st, _ = fl.flow(db.value, set())
+        for nm, init in fl.iter_lets.items():
+            if nm not in fl.iter_used:
+                fl.scan_reads(init, set())
         fl.prune_len_reads(db.value)
         bad = {}
         nreads = 0
